@@ -293,6 +293,63 @@ class _Subst(ast.NodeTransformer):
         return node
 
 
+class _FormatToFString(ast.NodeTransformer):
+    def __init__(self, const_locals):
+        self.const_locals = const_locals
+
+    def visit_Call(self, node):
+        self.generic_visit(node)
+        f = node.func
+        if not (isinstance(f, ast.Attribute) and f.attr == 'format'):
+            return node
+        if isinstance(f.value, ast.Constant) and isinstance(f.value.value, str):
+            tmpl = f.value.value
+        elif isinstance(f.value, ast.Name) and f.value.id in self.const_locals:
+            tmpl = self.const_locals[f.value.id]
+        else:
+            return node
+        if any(isinstance(a, ast.Starred) for a in node.args) or any(k.arg is None for k in node.keywords):
+            return node
+        import string
+        import copy
+        try:
+            fields = list(string.Formatter().parse(tmpl))
+        except ValueError:
+            return node
+        kw = {k.arg: k.value for k in node.keywords}
+        values = []
+        auto = 0
+        for lit, field, spec, conv in fields:
+            if lit:
+                values.append(ast.Constant(value=lit))
+            if field is None:
+                continue
+            if spec or conv:
+                return node
+            if field == '':
+                key = auto
+                auto += 1
+            elif field.isdigit():
+                key = int(field)
+            elif field.isidentifier():
+                key = field
+            else:
+                return node        # attribute / index lookups in the field name
+            if isinstance(key, int):
+                if key >= len(node.args):
+                    return node
+                v = node.args[key]
+            else:
+                if key not in kw:
+                    return node
+                v = kw[key]
+            values.append(ast.FormattedValue(value=copy.deepcopy(v), conversion=-1, format_spec=None))
+        js = ast.JoinedStr(values=values)
+        for x in ast.walk(js):
+            ast.copy_location(x, node)
+        return js
+
+
 class Desugar(ast.NodeTransformer):
     def __init__(self, tables, classes=()):
         self.tables = tables            # name -> rows (module level and class level literal tables)
@@ -324,6 +381,13 @@ class Desugar(ast.NodeTransformer):
         saved = getattr(self, 'loads', None)
         self.loads = Counter(x.id for x in ast.walk(node) if isinstance(x, ast.Name) and isinstance(x.ctx, ast.Load))
         self.stores = Counter(x.id for x in ast.walk(node) if isinstance(x, ast.Name) and isinstance(x.ctx, ast.Store))
+        # D7: "<literal template>".format(a, b, k=v)  ->  f-string (only for templates that are string literals, directly or through a local bound once)
+        const_locals = {}
+        for x in ast.walk(node):
+            if isinstance(x, ast.Assign) and len(x.targets) == 1 and isinstance(x.targets[0], ast.Name) and isinstance(x.value, ast.Constant) \
+                    and isinstance(x.value.value, str) and self.stores.get(x.targets[0].id) == 1:
+                const_locals[x.targets[0].id] = x.value.value
+        node = _FormatToFString(const_locals).visit(node)
         try:
             return self.generic_visit(node)
         finally:
